@@ -8,6 +8,9 @@ def to_cytoscape(graph: DiGraph, compound=False) -> list[dict[str, dict[str, Any
     compound nodes is used to group nodes together to their parent.
     See https://js.cytoscape.org/#notation/compound-nodes for reference.
     """
+    # sort by printed name so that the output doesn't depend on set iteration order (string hash seed)
+    graph_nodes = sorted(graph.nodes, key=lambda n: str(n))
+    graph_edges = sorted(graph.edges, key=lambda e: (str(e[0]), str(e[1])))
     if compound:
         parents_dict = {
             node.parent: {
@@ -18,7 +21,7 @@ def to_cytoscape(graph: DiGraph, compound=False) -> list[dict[str, dict[str, Any
                     else "Table or SubQuery"
                 ),
             }
-            for node in graph.nodes
+            for node in graph_nodes
         }
         nodes = [
             {
@@ -32,16 +35,16 @@ def to_cytoscape(graph: DiGraph, compound=False) -> list[dict[str, dict[str, Any
                     "type": type(node).__name__,
                 }
             }
-            for node in graph.nodes
+            for node in graph_nodes
         ]
         nodes += [
             {"data": {"id": attr["name"], "type": attr["type"]}}
             for _, attr in parents_dict.items()
         ]
     else:
-        nodes = [{"data": {"id": str(node)}} for node in graph.nodes]
+        nodes = [{"data": {"id": str(node)}} for node in graph_nodes]
     edges: list[dict[str, dict[str, Any]]] = [
         {"data": {"id": f"e{i}", "source": str(edge[0]), "target": str(edge[1])}}
-        for i, edge in enumerate(graph.edges)
+        for i, edge in enumerate(graph_edges)
     ]
     return nodes + edges
